@@ -736,6 +736,7 @@ func c07P2(r *core.R) {
 	}
 	closeRole := c07CloseRoleUnits(m)
 	defer c07CloseRoleOps(r, m, closeRole, closedByDefer)
+	defer c07WakeUpPath(r, m, closeRole)
 	for _, op := range ops {
 		if op.kind == "close" || op.kind == "done" {
 			continue
